@@ -232,6 +232,10 @@ pub fn run(ctx: &Ctx) -> Report {
             o.nepb = Tri::Never;
         }
         let mut case = gen_case(r, &o, 10);
+        if r.chance(1, 150) {
+            crate::gen::plant_many_aux_systems(&mut case.spec, r);
+            t.count("cases_with_more_than_35_systems_with_auxiliaries");
+        }
         if o.pv == Tri::Never && r.chance(1, 2) {
             // turn every electric consumption into a fuel consumption: AUX is the only electricity left
             for l in case.spec.lines.iter_mut() {
